@@ -24,6 +24,7 @@ import (
 	"io"
 	"math/rand/v2"
 	"net"
+	"runtime"
 	"runtime/pprof"
 	"strings"
 	"sync"
@@ -188,6 +189,14 @@ func refreshSession(c *hx.Ctx, k int, r *rand.Rand, dur time.Duration) string {
 		return true
 	}
 	nT := 1 + r.IntN(4)
+	// storm: many templates (a refresh round then takes milliseconds) and a short burst of NEW templates announced
+	// while a round is being transmitted, then silence until the next round: "every template sent so far is
+	// retransmitted each refresh interval", whenever it was announced
+	storm := r.IntN(8) == 1
+	if storm {
+		nT = 150 + r.IntN(100)
+		dur += time.Second
+	}
 	for i := 0; i < nT; i++ {
 		if !sendT(mkT()) {
 			return "error"
@@ -197,7 +206,9 @@ func refreshSession(c *hx.Ctx, k int, r *rand.Rand, dur time.Duration) string {
 	addMid := r.IntN(2) == 0
 	// trickle: the application keeps announcing NEW templates more often than the refresh interval ("every
 	// template sent so far is retransmitted each refresh interval" - also while others are being announced)
-	trickle := r.IntN(4) == 0
+	trickle := r.IntN(4) == 0 && !storm
+	tickAt := time.Second // the library's refresh ticker was started just before `start`
+	stormBursts := 0
 	nextTrickle := time.Duration(300+r.IntN(400)) * time.Millisecond
 	added := false
 	late := 0 // templates announced after the start
@@ -210,7 +221,26 @@ func refreshSession(c *hx.Ctx, k int, r *rand.Rand, dur time.Duration) string {
 			late++
 			nextTrickle = time.Since(start) + time.Duration(300+r.IntN(400))*time.Millisecond
 		}
-		if !trickle && addMid && !added && time.Since(start) > dur/3 {
+		if storm && time.Since(start) > tickAt-20*time.Millisecond && tickAt < dur-1500*time.Millisecond {
+			// wait (sending nothing) for the first datagram of the round, then announce a few templates at once
+			base := s.UDP.Count()
+			for time.Since(start) < tickAt+60*time.Millisecond {
+				if s.UDP.Count() > base {
+					for j := 0; j < 4+r.IntN(6); j++ {
+						if !sendT(mkT()) {
+							return "error"
+						}
+						late++
+					}
+					stormBursts++
+					break
+				}
+				runtime.Gosched()
+			}
+			tickAt += time.Second
+			// nothing is announced until the next round; data goes on below
+		}
+		if !trickle && !storm && addMid && !added && time.Since(start) > dur/3 {
 			if !sendT(mkT()) {
 				return "error"
 			}
@@ -253,6 +283,8 @@ func refreshSession(c *hx.Ctx, k int, r *rand.Rand, dur time.Duration) string {
 		tmplBody[t.tid] = refipfix.EncodeTemplateRecord(t.tid, gen.Fields(t.elems))
 		minRec[t.tid] = refipfix.MinRecordLen(gen.Widths(t.elems))
 	}
+	refPos := map[uint16][]int{} // capture positions of the refresh copies of each template
+	annIdx := map[uint16]int{}   // capture position of the application's own announcement
 	for i, dg := range dgs {
 		m, err := refipfix.ParseMessage(dg.Data)
 		if err != nil {
@@ -277,7 +309,9 @@ func refreshSession(c *hx.Ctx, k int, r *rand.Rand, dur time.Duration) string {
 			// a template datagram is the application's own iff it is the next thing it sent
 			if ai < len(sends) && sends[ai].kind == "T" && sends[ai].tid == tid {
 				ai++
+				annIdx[tid] = i
 			} else {
+				refPos[tid] = append(refPos[tid], i)
 				refresh[tid]++
 				if inRound[tid] {
 					inRound = map[uint16]bool{}
@@ -318,6 +352,34 @@ func refreshSession(c *hx.Ctx, k int, r *rand.Rand, dur time.Duration) string {
 	if ai < len(sends) {
 		c.Inconclusive(fmt.Sprintf("session %d: %d application datagrams did not arrive", k, len(sends)-ai))
 		return ""
+	}
+	// Rounds cannot be told apart exactly (the library walks a map: the order differs from round to round), but this
+	// can: if X has refresh copies at p1 < p2 < p3 (three consecutive rounds), the whole middle round lies strictly
+	// between p1 and p3, and a template T whose announcement was on the wire before p1 was in the table before that
+	// middle round's snapshot was taken: T must have a refresh copy in (p1, p3)
+	for x, ps := range refPos {
+		for j := 0; j+2 < len(ps); j++ {
+			p1, p3 := ps[j], ps[j+2]
+			for tid, at := range annIdx {
+				if at >= p1 {
+					continue
+				}
+				found := false
+				for _, q := range refPos[tid] {
+					if q > p1 && q < p3 {
+						found = true
+						break
+					}
+				}
+				if !found {
+					return fail("template-not-refreshed", fmt.Sprintf("template %d was announced as datagram %d; template %d was then retransmitted as datagrams %d, %d and %d (three refresh rounds), and there is no copy of template %d between the first and the third: a whole refresh round left it out (%d templates announced in this session)", tid, at, x, p1, ps[j+1], p3, tid, len(annIdx)), nil)
+				}
+			}
+		}
+	}
+	if storm {
+		c.Add("storm_sessions", 1)
+		c.Add("storm_bursts_announced_during_a_round", int64(stormBursts))
 	}
 	// refresh counts
 	minR, maxR := 1<<30, 0
